@@ -31,8 +31,27 @@ ASSUMPTIONS = [
 
 def check_scaffold(rows_plain, queries, rec, case):
     rows = conv.mk_rows(rows_plain)
-    scaffold = Scaffold("s", rows)
+    k = case.get("built_in_two_parts") if isinstance(case, dict) else None
+    if k:
+        # the scaffold is assembled the way the remapper builds scaffolds: a first part, its length read,
+        # then the rest appended
+        k = min(k, len(rows))
+        scaffold = Scaffold("s", rows[:k])
+        _ = scaffold.length
+        scaffold.append_scaffold(Scaffold("tail", rows[k:]))
+        _ = scaffold.fragments_length
+    else:
+        scaffold = Scaffold("s", rows)
+    rows = scaffold.rows
     asm = must(IndexedAssembly, "a", scaffolds=[scaffold], what="IndexedAssembly()")
+    if isinstance(case, dict) and case.get("rejected_duplicate"):
+        # a second scaffold of the same name is refused; that must not disturb the one already indexed
+        try:
+            asm.add_scaffold(Scaffold("s", conv.mk_rows(case["rejected_duplicate"])))
+        except ValueError:
+            pass
+        else:
+            raise Violation("adding a second scaffold named 's' was accepted")
     spans = ref.layout(rows_plain)
     total = spans[-1][1]
     bounds = {s for s, _ in spans} | {e for _, e in spans}
@@ -104,8 +123,13 @@ def scaffold_rows(draw, max_rows=12, strands=(1, -1)):
 def cases(draw):
     rows = draw(scaffold_rows())
     total = ref.rows_len(rows)
+    extra = {}
+    if draw(st.integers(0, 3)) == 0:
+        extra["built_in_two_parts"] = draw(st.integers(1, max(1, len(rows) - 1)))
+    if draw(st.integers(0, 3)) == 0:
+        extra["rejected_duplicate"] = draw(scaffold_rows(max_rows=6))
     if total <= 40:
-        return {"rows": rows, "queries": "all"}
+        return {"rows": rows, "queries": "all", **extra}
     spans = ref.layout(rows)
     anchors = sorted({1, total, total + 1, total + 2} | {s for s, _ in spans} | {e for _, e in spans})
     near = st.builds(lambda x, d: max(1, x + d), st.sampled_from(anchors), st.integers(-1, 1))
@@ -117,7 +141,7 @@ def cases(draw):
         if a > b:
             a, b = b, a
         qs.append([a, b, draw(st.sampled_from([1, -1]))])
-    return {"rows": rows, "queries": qs}
+    return {"rows": rows, "queries": qs, **extra}
 
 
 def body_history(case, rec):
